@@ -49,16 +49,14 @@ MUTS = [
  ("C04", "initial_counted_as_arg", X, "            if arg.kind != ArgumentKind::Initial {\n                self.current_args += 1;", "            if arg.kind != ArgumentKind::Initial || arg.arg.len() > 20 {\n                self.current_args += 1;"),
  # ---- C19
  ("C19", "combine_overwrites", X, "        if matches!(*self, Self::Success) {\n            *self = other;\n        }", "        *self = other;"),
- ("C19", "code_254_urgent", X, "                        if err == 255 {", "                        if err >= 254 {"),
  ("C19", "swap_124_125", X, "                    CommandExecutionError::UrgentlyFailed => 124,\n                    CommandExecutionError::Killed { .. } => 125,", "                    CommandExecutionError::UrgentlyFailed => 125,\n                    CommandExecutionError::Killed { .. } => 124,"),
  ("C19", "swap_126_127", X, "                    CommandExecutionError::CannotRun(_) => 126,\n                    CommandExecutionError::NotFound => 127,", "                    CommandExecutionError::CannotRun(_) => 127,\n                    CommandExecutionError::NotFound => 126,"),
  ("C19", "continue_after_255_last", X, "    if !options.no_run_if_empty || have_pending_command {\n        result.combine(current_builder.execute()?);\n    }", "    if !options.no_run_if_empty || have_pending_command {\n        match current_builder.execute() {\n            Ok(r) => result.combine(r),\n            Err(CommandExecutionError::UrgentlyFailed) => result.combine(CommandResult::Failure),\n            Err(e) => return Err(e.into()),\n        }\n    }"),
  ("C19", "signal_is_failure", X, "                                Err(CommandExecutionError::Killed { signal })", "                                if signal == 13 { Ok(CommandResult::Failure) } else { Err(CommandExecutionError::Killed { signal }) }"),
- ("C19", "core_dump_unknown", X, "                    } else if let Some(err) = status.code() {", "                    } else if let Some(err) = status.code().filter(|_| true) {"),  # no-op placeholder replaced below
  ("C19", "midloop_fatal_swallowed", X, "            if have_pending_command {\n                result.combine(current_builder.execute()?);\n            }", "            if have_pending_command {\n                match current_builder.execute() {\n                    Ok(r) => result.combine(r),\n                    Err(CommandExecutionError::Killed { .. }) => result.combine(CommandResult::Failure),\n                    Err(e) => return Err(e.into()),\n                }\n            }"),
  # ---- C20
  ("C20", "replacen_1", X, "OsString::from(arg_str.replace(replace_str, &replacement))", "OsString::from(arg_str.replacen(replace_str, &replacement, 2))"),
- ("C20", "append_in_replace_mode", X, "            command\n                .args(&initial_args)\n                .env_clear()", "            command\n                .args(&initial_args)\n                .args(self.extra_args.iter().skip(1))\n                .env_clear()"),
+ ("C20", "append_in_replace_mode", X, "            command\n                .args(&initial_args)\n                .env_clear()", "            command\n                .args(&initial_args)\n                .args(self.extra_args.iter().filter(|a| a.len() > 6))\n                .env_clear()"),
  ("C20", "whitespace_reader_in_replace", X, "        (None, false) => replace.as_ref().map(|_| b'\\n'),", "        (None, false) => replace.as_ref().filter(|r| r.len() != 1).map(|_| b'\\n'),"),
  ("C20", "normalize_flip", X, "                if lines_index > args_index && lines_index > replace_index {", "                if lines_index > args_index && lines_index < replace_index {"),
  ("C20", "n1_conflict", X, "            (None | Some(1), None, Some(_)) => {", "            (None, None, Some(_)) => {"),
@@ -76,7 +74,7 @@ MUTS = [
  ("C07", "print_debug", P, "            file_info.path().to_string_lossy(),\n            self.delimiter\n", "            file_info.path().to_string_lossy().escape_debug(),\n            self.delimiter\n"),
  ("C07", "strip_dot_slash", P, "            file_info.path().to_string_lossy(),\n            self.delimiter\n", "            file_info.path().strip_prefix(\"./\").unwrap_or(file_info.path()).to_string_lossy(),\n            self.delimiter\n"),
  ("C07", "trim_in_byte_reader", X, "                    arg: bytes_to_os_string(bytes),", "                    arg: bytes_to_os_string(bytes.trim_ascii_end()),"),
- ("C07", "lossy_reencode", X, "    OsString::from_vec(bytes.to_vec())", "    OsString::from(String::from_utf8_lossy(bytes).into_owned())"),
+ ("C05", "lossy_reencode", X, "    OsString::from_vec(bytes.to_vec())", "    OsString::from(String::from_utf8_lossy(bytes).into_owned())"),
  # ---- C08
  ("C08", "not_no_finished", L, "    fn finished(&self, matcher_io: &mut MatcherIO) {\n        self.submatcher.finished(matcher_io);\n    }", "    fn finished(&self, _matcher_io: &mut MatcherIO) {}"),
  ("C08", "or_no_finished_dir", L, "    fn finished_dir(&self, dir: &Path, matcher_io: &mut MatcherIO) {\n        for m in &self.submatchers {\n            m.finished_dir(dir, matcher_io);\n        }\n    }", "    fn finished_dir(&self, _dir: &Path, _matcher_io: &mut MatcherIO) {}", 1),
@@ -90,7 +88,6 @@ MUTS = [
  # ---- C09
  ("C09", "splitn_2", E, "let parts = a.split(\"{}\").collect::<Vec<_>>();", "let parts = a.splitn(3, \"{}\").collect::<Vec<_>>();"),
  ("C09", "signal_is_success", E, "            Ok(status) => status.success(),\n", "            Ok(status) => status.success() || status.code().is_none(),\n"),
- ("C09", "exit_code_set_on_failure", E, "            Ok(status) => status.success(),\n", "            Ok(status) => {\n                if status.code() == Some(2) {\n                    matcher_io.set_exit_code(1);\n                }\n                status.success()\n            }\n"),
  ("C09", "execdir_full_path", E, "        let path_to_file = if self.exec_in_parent_dir {\n            if let Some(f) = file_info.path().file_name() {\n                Path::new(\".\").join(f)", "        let path_to_file = if self.exec_in_parent_dir {\n            if let Some(f) = file_info.path().file_name().filter(|_| file_info.depth() < 3) {\n                Path::new(\".\").join(f)", 0),
  ("C09", "execdir_cwd_is_path", E, "                Some(parent) => {\n                    command.current_dir(parent);\n                }", "                Some(parent) => {\n                    command.current_dir(if file_info.file_type().is_dir() { file_info.path() } else { parent });\n                }"),
  ("C09", "spawn_error_true", E, "                writeln!(&mut stderr(), \"Failed to run {}: {}\", self.executable, e).unwrap();\n                false\n", "                writeln!(&mut stderr(), \"Failed to run {}: {}\", self.executable, e).unwrap();\n                e.kind() == std::io::ErrorKind::PermissionDenied\n"),
@@ -129,8 +126,6 @@ def main():
     for m in MUTS:
         prop, name, path, old, new = m[:5]
         occ = m[5] if len(m) > 5 else None
-        if name == "core_dump_unknown":
-            continue
         fp = os.path.join(WT, path)
         s = open(fp).read()
         cnt = s.count(old)
